@@ -6,6 +6,7 @@ import json
 PLANS = {
     "C01": {"profiles": ["c01_faultfree", "c01_lossy"], "quick": 6000, "thorough": 120000},
     "C03": {"profiles": ["c03_gc_twin"], "quick": 1000, "thorough": 40000},
+    "C04": {"profiles": ["c04_sequential"], "quick": 5000, "thorough": 100000},
     "C05": {"profiles": ["c05_fault_sweep"], "quick": 5000, "thorough": 100000},
     "C08": {"profiles": ["c08_atomic_update"], "quick": 5000, "thorough": 100000},
     "C06": {"profiles": ["c06_clocks", "c06_clocks", "c06_gcfree"], "quick": 5000, "thorough": 100000},
